@@ -44,7 +44,11 @@ type Backend interface {
 	Slot(key []byte) uint64
 	Raw() interface{}
 	Index() *cache.InvalidationIndex // the invalidation index embedded in the backend
+	// WalkErr walks with a callback that fails at the at-th entry it is shown (0-based); returns Walk's results and the key there
+	WalkErr(at int) (n int, err error, failedKey string)
 }
+
+var errWalkStop = errors.New("walk callback gives up")
 
 func tokOf(v interface{}) int {
 	if v == nil {
@@ -67,7 +71,7 @@ func valOf(t int) interface{} {
 
 type shardedB struct{ c *cache.ShardedMap }
 
-func (b shardedB) Kind() string { return "sharded" }
+func (b shardedB) Kind() string                    { return "sharded" }
 func (b shardedB) Index() *cache.InvalidationIndex { return b.c.InvalidationIndex }
 func (b shardedB) Read(ctx context.Context, key []byte) (int, error) {
 	v, err := b.c.Read(ctx, key)
@@ -94,6 +98,18 @@ func (b shardedB) Walk() []EntryObs {
 		panic(err)
 	}
 	return res
+}
+func (b shardedB) WalkErr(at int) (int, error, string) {
+	i, fk := 0, ""
+	n, err := b.c.Walk(func(e cache.Entry) error {
+		if i == at {
+			fk = string(e.Key())
+			return errWalkStop
+		}
+		i++
+		return nil
+	})
+	return n, err, fk
 }
 func (b shardedB) WalkCB(cb func(EntryObs)) {
 	_, _ = b.c.Walk(func(e cache.Entry) error {
@@ -129,7 +145,7 @@ type syncB struct {
 	keys *KeyTable
 }
 
-func (b syncB) Kind() string { return "sync" }
+func (b syncB) Kind() string                    { return "sync" }
 func (b syncB) Index() *cache.InvalidationIndex { return b.c.InvalidationIndex }
 func (b syncB) Read(ctx context.Context, key []byte) (int, error) {
 	v, err := b.c.Read(ctx, key)
@@ -157,6 +173,18 @@ func (b syncB) Walk() []EntryObs {
 	}
 	return res
 }
+func (b syncB) WalkErr(at int) (int, error, string) {
+	i, fk := 0, ""
+	n, err := b.c.Walk(func(e cache.Entry) error {
+		if i == at {
+			fk = string(e.Key())
+			return errWalkStop
+		}
+		i++
+		return nil
+	})
+	return n, err, fk
+}
 func (b syncB) WalkCB(cb func(EntryObs)) {
 	_, _ = b.c.Walk(func(e cache.Entry) error {
 		te := e.(*cache.TraitEntry)
@@ -181,7 +209,7 @@ func (b syncB) Expired(err error) (int, int64, bool) { return expiredAny(err) }
 
 type shardedOfB struct{ c *cache.ShardedMapOf[int] }
 
-func (b shardedOfB) Kind() string { return "shardedOf" }
+func (b shardedOfB) Kind() string                    { return "shardedOf" }
 func (b shardedOfB) Index() *cache.InvalidationIndex { return b.c.InvalidationIndex }
 func (b shardedOfB) Read(ctx context.Context, key []byte) (int, error) {
 	return b.c.Read(ctx, key)
@@ -207,6 +235,18 @@ func (b shardedOfB) Walk() []EntryObs {
 		panic(err)
 	}
 	return res
+}
+func (b shardedOfB) WalkErr(at int) (int, error, string) {
+	i, fk := 0, ""
+	n, err := b.c.Walk(func(e cache.EntryOf[int]) error {
+		if i == at {
+			fk = string(e.Key())
+			return errWalkStop
+		}
+		i++
+		return nil
+	})
+	return n, err, fk
 }
 func (b shardedOfB) WalkCB(cb func(EntryObs)) {
 	_, _ = b.c.Walk(func(e cache.EntryOf[int]) error {
